@@ -69,10 +69,10 @@ NOISE = re.compile(
     r"string::ToString::|ptr::|slice::<impl \[T\]>::(iter|len|is_empty|get|first|last|join|concat)$|"
     r"str::<impl str>::|string::String::(as_str|len|is_empty|as_bytes|new|from|with_capacity)$|"
     r"vec::Vec::(new|len|is_empty|with_capacity|as_slice)$|path::Path::(new|to_str|join|parent|display)$)|"
-    r"^log::|^<.* as std::(iter::(Iterator|IntoIterator)|ops::(Deref|DerefMut|Index|IndexMut)|clone::Clone|"
+    r"^log::|(^|::)<.* as (std|core|alloc)::(iter::(Iterator|IntoIterator)|ops::(Deref|DerefMut|Index|IndexMut)|clone::Clone|"
     r"convert::(From|Into|AsRef|AsMut)|borrow::(Borrow|BorrowMut)|cmp::(PartialEq|Eq|PartialOrd|Ord)|"
     r"default::Default|string::ToString|fmt::(Display|Debug))>::")
-STD = re.compile(r"^<?(&(mut )?)?(std|core|alloc)::")
+STD = re.compile(r"^<?(&('[a-z_]+ )?(mut )?)?(std|core|alloc)::")
 
 
 def last_seg(n):
@@ -311,6 +311,23 @@ ITERATES = {"extend": 1, "from_iter": 0, "chain": 1, "zip": 1, "eq": 1, "cmp": 1
             "append": 1}
 
 
+def resolve_fn(crates, c, n):
+    """The workspace function a generic-stripped callee path names (same crate, or another loaded crate)."""
+    if n.startswith("crate::"):
+        for g in c.fns.values():
+            if g.npath == n:
+                return g
+        return None
+    head = n.split("::", 1)[0]
+    other = crates.get(head)
+    if other is not None and "::" in n:
+        tail = n.split("::", 1)[1]
+        cands = [g for g in other.fns.values() if g.npath == "crate::" + tail or g.npath.endswith("::" + tail)]
+        if len(cands) == 1:
+            return cands[0]
+    return None
+
+
 def inventory(crates, derived):
     """All order-yielding sites.  `derived` = generic-stripped paths of workspace functions that return a hash
     iterator (from `returned` table entries that were verified)."""
@@ -355,9 +372,18 @@ def inventory(crates, derived):
                 elif MOVERS.search(n) or (STD.search(n) and m in LOOKUP_METHODS and i == 0):
                     lookups += 1
                 elif not STD.search(n):
-                    lookups += 1  # handed to a workspace function (analysed itself) ...
-                    if not (n.startswith("crate::") or n.startswith("wit_bindgen") or n.startswith("<")):
-                        unknown.append((cname, f, call, ty))  # ... or to a third-party one
+                    # handed to a workspace function: fine when its parameter is declared as this container (its own
+                    # MIR then shows what it does with it); a generic / unresolvable callee may iterate it blindly
+                    g = resolve_fn(crates, c, n)
+                    if g is None:
+                        unknown.append((cname, f, call, ty))
+                    else:
+                        generic = [(j, t) for j, t in ca if j + 1 >= len(g.locals) or not CONTAINER.match(g.locals[j + 1])]
+                        if generic:
+                            j, t = generic[0]
+                            sites.append(Site(cname, f, call, "consume", t, call.args[j]))
+                        else:
+                            lookups += 1
                 else:
                     # a std function outside the vocabulary that receives the container: fail closed, triage it
                     sites.append(Site(cname, f, call, "consume", ty, call.args[i]))
@@ -412,7 +438,11 @@ def chain(site):
             cur = c
             continue
         if is_iter_trait and m == "next":
+            if not f.in_cycle(c.bb):
+                return steps, ("other", c, "next outside a loop (picks an arbitrary element)"), marked
             return steps, ("for", c, None), marked
+        if is_iter_trait and m == "for_each":
+            return steps, ("for_each", c, None), marked
         if is_iter_trait and m == "collect":
             return steps, ("collect", c, f.locals[c.dest["l"]]), marked
         if m == "from_iter":
@@ -455,12 +485,20 @@ def traces_to(f, op, bb, depth=8):
     return False
 
 
-def sorted_after(f, cbb):
+TOTAL_SORTS = {"sort", "sort_unstable"}
+
+
+def sorted_after(f, cbb, by_ok=False):
     """The Vec produced by the call in block cbb is sorted on every path before anything but push/extend sees it.
-    Returns (ok, detail)."""
+    A sort with a caller-supplied key or comparator only counts when the table row vouches for it (`sort_by_ok`):
+    a partial key leaves ties in hash order.  Returns (ok, detail)."""
     sorts = [c for c in f.calls() if last_seg(mir.norm(c.callee)) in SORTS and c.args and traces_to(f, c.args[0], cbb)]
     if not sorts:
         return False, "no sort of the collected Vec in this function"
+    keyed = sorted({short_callee(c) for c in sorts if last_seg(mir.norm(c.callee)) not in TOTAL_SORTS})
+    if keyed and not by_ok:
+        return False, (f"sorted with {', '.join(keyed)}: a key/comparator may leave ties in hash order "
+                       "(add `sort_by_ok` with the reason to the table row after reading it)")
     sbbs = {c.bb for c in sorts}
     if not f.all_paths_pass(cbb, f.returns(), sbbs):
         return False, "a path from the collect to a return bypasses the sort"
@@ -473,24 +511,31 @@ def sorted_after(f, cbb):
     return True, "sorted by " + ", ".join(sorted({short_callee(c) for c in sorts}))
 
 
-def auto_guard(site, steps, term):
+def auto_guard(site, steps, term, by_ok=False):
     """Guards that need no triage: the order is destroyed (hash sink), restored (sort, BTree) or irrelevant (fold)."""
     kind, c, info = term
     f = site.f
     if kind in ("collect", "extend") and (is_hash_ty(info) or is_btree_ty(info)):
         return True, f"{kind}s into {short_ty(info)}"
     if kind == "collect" and is_vec_ty(info):
-        return sorted_after(f, c.bb)
+        return sorted_after(f, c.bb, by_ok)
     if kind == "fold":
         return True, f"order-insensitive terminal `{info}`"
     return False, f"terminal {kind} {short_ty(info) if isinstance(info, str) else info or ''}".strip()
 
 
 def loop_body(site, term):
+    """(function, blocks, effects) of the body executed once per element: the blocks of the `for` loop, or the whole
+    closure handed to `for_each`."""
     f = site.f
+    if term[0] == "for_each":
+        g = closure_of_arg(f, term[1])
+        if g is None:
+            raise mir.AnchorMissing(f"{f.path}: the closure passed to for_each is not a closure of this function")
+        return g, set(g.live), effects(g, g.live)
     nb = term[1].bb
     blocks = loop_blocks(f, nb)
-    return blocks, effects(f, blocks)
+    return f, blocks, effects(f, blocks)
 
 
 def shared_writes(c, holders, field):
@@ -526,6 +571,32 @@ def shared_writes(c, holders, field):
     return out
 
 
+def writes_through_params(g):
+    """Does the function write to what its reference parameters point to (field store, `&mut` of a field, or passing
+    the whole `&mut` on to another call)?  Moving the reference into a struct literal is not a write."""
+    out = []
+    params = set(range(1, g.argc + 1))
+    for b in sorted(g.live):
+        for s in g.stmts(b):
+            if s["k"] != "=":
+                continue
+            d = s["p"]
+            if d["l"] in params and d.get("p") and d["p"][0] == "*" and len(d["p"]) > 1:
+                out.append((b, "stores to " + "".join(x for x in d["p"] if x.startswith("."))))
+            rv = s["rv"]
+            if rv["k"] in ("ref", "rawptr") and rv.get("m") and rv["p"]["l"] in params and rv["p"].get("p", [])[:1] == ["*"]:
+                if len(rv["p"]["p"]) > 1:
+                    out.append((b, "mutably borrows " + "".join(x for x in rv["p"]["p"] if x.startswith("."))))
+                else:
+                    tgt = s["p"]["l"]
+                    for c in g.calls():
+                        for a in c.args:
+                            p = a.get("mv") or a.get("cp")
+                            if p and p["l"] == tgt and not p.get("p"):
+                                out.append((c.bb, "passes the `&mut` parameter on to " + short_callee(c)))
+    return out
+
+
 def check_guard(rep, site, entry, crates, steps, term):
     """Re-derive the guard named by the table entry.  Returns (ok, detail)."""
     g = entry.get("guard")
@@ -537,7 +608,7 @@ def check_guard(rep, site, entry, crates, steps, term):
         return ok, ("triaged as reaching output in hash order: " + entry.get("reason", "") + " [" + d + "]") if not ok else d
     if g == "sorted_after":
         if kind == "collect" and (is_vec_ty(info) or is_btree_ty(info)):
-            return auto_guard(site, steps, term)
+            return auto_guard(site, steps, term, by_ok=bool(entry.get("sort_by_ok")))
         return False, f"expected collect into a Vec/BTree followed by a sort, found terminal {kind}"
     if g == "returned":
         return kind == "returned", f"terminal {kind}" + (" after " + ">".join(steps) if steps else "")
@@ -546,7 +617,7 @@ def check_guard(rep, site, entry, crates, steps, term):
             cl = closure_of_arg(f, c)
             if cl is None:
                 return False, "retain predicate is not a closure of this function"
-            eff = effects(cl, cl.live, depth=0) | {mir.norm(x.callee) for x in cl.calls() if HASH_NAME.search(x.callee)}
+            eff = effects(cl, cl.live, depth=1) | {mir.norm(x.callee) for x in cl.calls() if HASH_NAME.search(x.callee)}
             bad = allowed(eff, allow)
             return not bad, ("predicate calls " + ", ".join(bad)) if bad else "predicate only consults " + ", ".join(sorted(short(e) for e in eff))
         if kind == "fold":
@@ -558,44 +629,53 @@ def check_guard(rep, site, entry, crates, steps, term):
             ok = kind in ("collect", "extend") and is_hash_ty(info)
             return ok, f"{kind} into {short_ty(info) if isinstance(info, str) else info}"
         if how == "loop":
-            if kind != "for":
+            if kind not in ("for", "for_each"):
                 return False, f"expected a for loop, found terminal {kind}"
-            blocks, eff = loop_body(site, term)
+            bf, blocks, eff = loop_body(site, term)
             bad = allowed(eff, allow)
             if bad:
-                return False, "loop body now also calls " + ", ".join(short(b) for b in bad)
+                return False, "loop body has effects outside the triaged set: " + ", ".join(short(b) for b in bad)
             missing = [a for a in entry.get("require", []) if not any(mir.suffix_match(e, a) for e in eff)]
             if missing:
                 return False, "loop body no longer calls " + ", ".join(missing)
             for extra in entry.get("then", []):
+                if kind != "for":
+                    return False, "a `then` clause needs a plain for loop"
                 ok, d = check_then(site, term, blocks, extra)
                 if not ok:
                     return False, d
             return True, "loop body effects: " + ", ".join(sorted(short(e) for e in eff))
         return False, f"unknown commutative mode {how}"
     if g == "keyed_sink":
-        if kind != "for":
+        if kind not in ("for", "for_each"):
             return False, f"expected a for loop, found terminal {kind}"
-        blocks, eff = loop_body(site, term)
+        bf, blocks, eff = loop_body(site, term)
         bad = allowed(eff, allow)
         if bad:
-            return False, "loop body now also calls " + ", ".join(short(b) for b in bad)
+            return False, "loop body has effects outside the triaged set: " + ", ".join(short(b) for b in bad)
         sink = entry.get("sink", "Files::push")
-        pushes = [x for x in f.calls(sink) if x.bb in blocks]
+        pushes = [x for x in bf.calls(sink) if x.bb in blocks]
         if not pushes:
             return False, f"no `{sink}` in the loop body"
         for p in pushes:
-            o = f.origin(p.args[1])
+            o = bf.origin(p.args[1])
             if o.get("kind") == "const":
                 return False, f"`{sink}` is called with a constant key: every iteration appends to one entry"
             db = None
             if o.get("kind") == "call":
                 db = o["call"].bb
             elif "local" in o:
-                ds = f.defs.get(o["local"], [])
+                ds = bf.defs.get(o["local"], [])
                 db = ds[0][0] if ds else None
+            elif o.get("kind") == "arg" and bf is not f:
+                db = next(iter(blocks))  # a parameter of the per-element closure: the element itself
             if db is None or db not in blocks:
                 return False, f"the key passed to `{sink}` is not computed inside the loop (not derived from the item)"
+        for pc in entry.get("pure_callees", []):
+            g_ = crates[site.crate].fn(pc)
+            w = writes_through_params(g_)
+            if w:
+                return False, f"{pc} {w[0][1]} ({g_.loc(w[0][0])}): a per-item helper now changes shared state"
         nsw = entry.get("no_shared_write")
         if nsw:
             ws = shared_writes(crates[site.crate], set(nsw["holders"]), nsw["field"])
@@ -662,6 +742,40 @@ def returned_type_is(f, ty):
 # ---------------------------------------------------------------------------------------------------------------
 # the rule module
 # ---------------------------------------------------------------------------------------------------------------
+def hashy_adts(crates):
+    """base name -> why, for workspace ADTs that contain a std hash container directly or through another one."""
+    adts = {}
+    for c in crates.values():
+        for path, a in c.adts.items():
+            adts.setdefault(path.rsplit("::", 1)[-1], []).append(a)
+    hashy = {}
+    changed = True
+    while changed:
+        changed = False
+        for name, lst in adts.items():
+            if name in hashy:
+                continue
+            for a in lst:
+                for v in a["variants"]:
+                    for fname, fty in v["fields"]:
+                        m = re.search(r"std::collections::(HashMap|HashSet)<", fty)
+                        if m:
+                            hashy[name] = f"a {m.group(1)} (field `{fname}`)"
+                        else:
+                            for w in set(re.findall(r"[A-Za-z_][A-Za-z0-9_]*", fty)):
+                                if w in hashy and w != name:
+                                    hashy[name] = f"{w} (field `{fname}`)"
+                        if name in hashy:
+                            break
+                    if name in hashy:
+                        break
+                if name in hashy:
+                    break
+            if name in hashy:
+                changed = True
+    return hashy
+
+
 def load_table():
     with open(TABLE) as fh:
         t = json.load(fh)
@@ -754,15 +868,37 @@ def r1(rep, crates):
                            False, "the iterator does not come from an inventoried site of this function", f.loc(call.bb))
     for cname, f, call, ty in unknown:
         rep.ob("R15.1", f"{cname}::{fn_key(f)}: {short_callee(call)} receives {short_ty(ty)}", False,
-               "a hash container is handed to a third-party function that may iterate it", f.loc(call.bb))
-    # stale rows other than repaired defects: the table must describe the tree
+               "a hash container is handed to a function whose body is not in the analysed crates; it may iterate it",
+               f.loc(call.bb))
+    # stale rows: the table must describe the tree.  Exempt are repaired defects (`unordered`) and rows marked
+    # `optional` - guarded uses of a container that the recommended repair turns into an ordered one.
+    gone = 0
     for e in table["sites"]:
-        if id(e) not in used and e.get("guard") != "unordered":
-            rep.ob("R15.1", f"table row {e['crate']}::{e['fn']}: {e['callee']} on {e['recv']}", False,
-                   "the triage table lists a site that no longer exists (re-triage the function)", "rules/c15_sites.json")
-    rep.floor("R15.1", "guarded hash-order sites", nguarded, 20)
+        if id(e) in used or e.get("guard") == "unordered":
+            continue
+        if e.get("optional"):
+            gone += 1
+            continue
+        rep.ob("R15.1", f"table row {e['crate']}::{e['fn']}: {e['callee']} on {e['recv']}", False,
+               "the triage table lists a site that no longer exists (re-triage the function)", "rules/c15_sites.json")
+    rep.floor("R15.1", "guarded hash-order sites (plus optional rows whose container became ordered)", nguarded + gone, 20)
     rep.floor("R15.1", "hash-container lookups classified as order-free", lookups, 150)
     rep.floor("R15.1", "iterator-returning workspace functions followed to their callers", len(derived), 1)
+    # Debug / Display of a workspace struct that (transitively) contains a hash container prints it in hash order
+    hashy = hashy_adts(crates)
+    nfmt = 0
+    for cname, c in crates.items():
+        for f in c.fns.values():
+            for call in f.calls(re.compile(r"fmt::rt::Argument::<'_>::new_\w+|fmt::rt::Argument::new_\w+")):
+                nfmt += 1
+                t = call.arg_types[0] if call.arg_types else ""
+                if not last_seg(mir.norm(call.callee)).startswith("new_debug"):
+                    continue
+                base = mir.base_type(t.lstrip("&").strip())
+                if base in hashy:
+                    rep.ob("R15.1", f"{cname}::{fn_key(f)}: Debug formatting of {base}, which contains {hashy[base]}", False,
+                           "derive(Debug) prints the hash container in iteration order", f.loc(call.bb))
+    rep.floor("R15.1", "format arguments inspected for hash-containing types", nfmt, 3000)
     # the fold used by the one commutative merge loop in core really is a boolean OR
     core = crates.get("wit_bindgen_core")
     if core is not None:
@@ -882,16 +1018,12 @@ KNOWN = {
     ("wit_bindgen[executable]", "main", "environment variable"):
         "args_os().nth(0): the executable's own path handed to the `test` subcommand, not a generator input",
     ("wit_bindgen_rust_macro[procmacro]", "parse_source", "file-system probe"):
-        "tests whether the default `wit` input directory exists (input discovery)",
-    ("wit_bindgen_rust_macro[procmacro]", "parse_source::{closure#0}", "file-system probe"):
-        "canonicalises an input path for error messages",
+        "tests whether the default `wit` input directory exists and canonicalises input paths (input discovery)",
     ("wit_bindgen[executable]", "main", "file-system probe"):
         "check mode reads the previously generated file to compare it: this is the comparison itself",
     ("wit_bindgen_go", "maybe_gofmt", "thread"):
         "scoped thread that only feeds gofmt's stdin; joined before the function returns, output is gofmt's stdout",
-    ("wit_bindgen_go", "maybe_gofmt::{closure#0}", "thread"):
-        "scoped thread that only feeds gofmt's stdin; joined before the function returns, output is gofmt's stdout",
-    ("wit_bindgen_go", "maybe_gofmt::{closure#0}", "subprocess"):
+    ("wit_bindgen_go", "maybe_gofmt", "subprocess"):
         "external formatter gofmt (pure function of its stdin for a fixed tool version; falls back to unformatted text)",
     ("wit_bindgen_cpp", "Cpp::clang_format", "subprocess"):
         "external formatter clang-format behind --format (pure function of its stdin for a fixed tool version)",
@@ -907,7 +1039,9 @@ def r3(rep, crates):
                 names = " ".join(call.names())
                 for what, rx in FORBIDDEN:
                     if rx.search(names):
-                        hits.setdefault((cname, fn_key(f), what), []).append((f, call))
+                        # closures are attributed to the function that contains them
+                        owner = re.sub(r"(::\{closure#\d+\})+$", "", fn_key(f))
+                        hits.setdefault((cname, owner, what), []).append((f, call))
     seen_known = set()
     for (cname, fn, what), lst in sorted(hits.items()):
         f, call = lst[0]
@@ -952,8 +1086,8 @@ def _skeleton():
         c, fn, recv, callee = s.key()
         row = {"crate": c, "fn": fn, "recv": recv, "callee": callee, "_chain": ">".join(st), "_terminal": tm[0],
                "_auto": [ok, d], "_line": s.call.line}
-        if tm[0] == "for":
-            row["_effects"] = sorted(loop_body(s, tm)[1])
+        if tm[0] in ("for", "for_each"):
+            row["_effects"] = sorted(loop_body(s, tm)[2])
         out.append(row)
     print(json.dumps(out, indent=1))
     print("lookups", lookups, "unknown", [(a, fn_key(b), short_callee(c)) for a, b, c, d in unknown])
